@@ -45,22 +45,58 @@ theorem leb_size_eq_emit (u : Nat) (s : Int) :
 
 /-! ## (1b) the emitted bytes are what the form's reader decodes -/
 
-/-- **The bytes written for a value are the encoding the reader of its form decodes** — for the
-address, data1…data16, udata and constant-class, file index, block, string, flag, type signature,
-string-table and section-offset kinds, in every version, format, address size and byte order:
+/-- **The bytes written for a value are the encoding the reader of its form decodes** — for every
+`AttributeValue` kind whose bytes are final when pass 2 emits them (everything except the two
+reference kinds `UnitRef` / `DebugInfoRef`, whose placeholders are patched later and are covered by
+`unit_refs_resolve` / `fixups_resolve`), in every version, format, address size and byte order:
 reading `em.bytes ++ rest` with the primitive readers `read::parse_attribute` uses for the form
-`AttributeValue::form` chose (`Spec/WUnit.lean` `readForm`, built from the readers of C09) gives
-back exactly the intended value (`decoded`) and leaves exactly `rest`.  So `form`, `size` and
-`write` agree not only on the length but on the meaning.
-Partial: signed LEB128 values (`Sdata`, `ImplicitConst` before v5) and expression bodies are
-covered by the length theorem and the read-back oracle only; reference kinds are covered by
-`unit_refs_resolve` / `fixups_resolve` (their bytes are patched later). -/
-theorem attr_bytes_decode_partial (cx : Ctx) (pos : Nat) (v : AttrVal) (em : Emit) (fv : FormVal)
-    (rest : Bytes) (h : attrEmit cx pos v = .ok em) (hr : v.InRange) (hd : decoded cx v = some fv)
+`AttributeValue::form` chose (`Spec/WUnit.lean` `readFormFull`, built from the readers of C09:
+`Leb.unsigned`, `Leb.signed`, `readFixed`, `readAddress`; `DW_FORM_implicit_const` takes its value
+from the abbreviation) gives back exactly the intended value (`decodedFull`: numbers, signed
+numbers, block / string / expression bytes, flags, table and section offsets) and leaves exactly
+`rest`.  So `form`, `size` and `write` agree not only on the length but on the meaning. -/
+theorem attr_bytes_decode (cx : Ctx) (pos : Nat) (v : AttrVal) (em : Emit) (fv : FormVal)
+    (rest : Bytes) (h : attrEmit cx pos v = .ok em) (hr : v.InRangeFull cx) (hd : decodedFull cx v = some fv)
     (hso : ∀ o ∈ cx.strOffsets, o < 2 ^ 64) (hlo : ∀ o ∈ cx.lineStrOffsets, o < 2 ^ 64)
     (hlp : ∀ o, cx.lineProgram = some o → o < 2 ^ 64) :
-    readForm cx.endian cx.enc (attrForm cx.enc v).1 (em.bytes ++ rest) = .ok (fv, rest) :=
-  attr_bytes_decode' cx pos v em fv rest h hr hd hso hlo hlp
+    readFormFull cx.endian cx.enc (attrForm cx.enc v).1 (attrForm cx.enc v).2 (em.bytes ++ rest) =
+      .ok (fv, rest) :=
+  attr_bytes_decode_full cx pos v em fv rest h hr hd hso hlo hlp
+
+/-- what `decodedFull` leaves out is exactly the reference kinds (and the kinds that can only
+fail to be written) -/
+theorem decoded_covers (cx : Ctx) (v : AttrVal) (em : Emit) (pos : Nat) (h : attrEmit cx pos v = .ok em) :
+    (∃ fv, decodedFull cx v = some fv) ∨ (∃ id, v = .unitRef id) ∨ (∃ u id, v = .debugInfoRef u id) := by
+  cases v <;> simp only [attrEmit] at h
+  case unitRef id => exact Or.inr (Or.inl ⟨id, rfl⟩)
+  case debugInfoRef u id => exact Or.inr (Or.inr ⟨u, id, rfl⟩)
+  case addressSym | debugInfoRefSym => simp at h
+  case exprloc items =>
+    left
+    obtain ⟨size, _, h⟩ := bind_ok_inv h
+    obtain ⟨⟨body, fx⟩, hb, _⟩ := bind_ok_inv h
+    obtain ⟨fx0, hb0⟩ := exprItemsEmit_bytes_pos cx items _ 0 body fx hb
+    exact ⟨.bytes body, by simp [decodedFull, exprBytes, hb0]⟩
+  case lineProgramRef =>
+    left
+    cases hl : cx.lineProgram with
+    | none => simp [hl] at h
+    | some off => exact ⟨.num off, by simp [decodedFull, decoded, hl]⟩
+  case stringRef idx =>
+    left
+    obtain ⟨off, ho, _⟩ := bind_ok_inv h
+    unfold tableOffset at ho
+    cases hg : cx.strOffsets[idx]? with
+    | none => simp [hg] at ho
+    | some o => exact ⟨.num o, by simp [decodedFull, decoded, hg]⟩
+  case lineStringRef idx =>
+    left
+    obtain ⟨off, ho, _⟩ := bind_ok_inv h
+    unfold tableOffset at ho
+    cases hg : cx.lineStrOffsets[idx]? with
+    | none => simp [hg] at ho
+    | some o => exact ⟨.num o, by simp [decodedFull, decoded, hg]⟩
+  all_goals (left; exact ⟨_, rfl⟩)
 
 /-! ## (2) pass 1 offsets are pass 2 positions -/
 
@@ -486,6 +522,13 @@ theorem length_overflow_is_error (e : Endian) (len : Nat) (bs : Bytes)
 
 /-! ## non-vacuity: the hypotheses are met by concrete, non-trivial inputs -/
 
+/-- a pass-2 context with empty tables -/
+def exCtxW : Ctx :=
+  { endian := .little, enc := { version := 4, format := .dwarf32, addrSize := 8 },
+    offs := { unit := 0, n := 1, map := fun _ => none }, codes := fun _ => none, lineProgram := none,
+    strOffsets := [], lineStrOffsets := [] }
+
+
 /-- root with a forward `UnitRef` to its second child, a base type that is moved first -/
 def exTree : Tree :=
   .node 0 0x11 false [(0x49, .unitRef 2), (0x03, .string [0x61])]
@@ -506,6 +549,8 @@ example : fitsIn 0x1234 2 ∧ ¬ fitsIn 0x12345 2 ∧ ¬ fitsIn 0 3 := by decide
 example : (AttrVal.data2 0x1234).InRange ∧ (AttrVal.string [0x61, 0x62]).InRange ∧
     ¬ (AttrVal.string [0x61, 0]).InRange := by decide
 example : Placed 0 0 (holesI ([] : List IFix)) := Nat.le_refl 0
+example : decodedFull exCtxW (.sdata (-5)) = some (.int (-5)) ∧ (AttrVal.sdata (-5)).InRangeFull exCtxW := by
+  refine ⟨rfl, trivial, by decide⟩
 example : abbrevAdd [⟨1, true, []⟩] ⟨1, true, []⟩ = (1, [⟨1, true, []⟩]) := by decide
 example : strAdd [[1], [2]] [2] = (1, [[1], [2]]) ∧ strOffsets [[1], [2, 3], []] = [0, 2, 5] := by decide
 
